@@ -57,6 +57,12 @@ def analyse(F, s, classes, stores=None):
     for f, t in init.items():
         if classes[s].get(f) == "PARAM" and isinstance(t, tuple) and t[0] == "arg" and any(t == ln for ln in ts.buffers.values()):
             ts.len_fields[f] = t
+    # only buffers whose length IS the period parameter carry the invariant len = period; a second buffer of another length
+    # (`vec![0.0; 16]`) must not be indexed by a cursor of the first
+    for f in list(ts.buffers):
+        if not any(ts.buffers[f] == a for a in ts.len_fields.values()):
+            ts.errors.append("buffer `%s` has length %s, which is not the period parameter" % (f, show(ts.buffers[f])[:40]))
+            del ts.buffers[f]
     # evaluate every hand-written method of the struct (modular)
     for fn in F.fns_of(s):
         if fn.derived or fn.name in ("new", "default", "fmt"):
@@ -186,12 +192,15 @@ def analyse(F, s, classes, stores=None):
                     continue
                 good = True
                 for lab, (fn, r) in ts.methods.items():
-                    if fn.trait_short != "Next":
-                        continue
                     tc = r["heap"].get("self." + cfield)
                     tn = r["heap"].get("self." + nfield)
                     if tc is None and tn is None:
-                        continue  # pure delegation
+                        continue  # pure delegation / does not touch the ring bookkeeping
+                    if fn.trait_short != "Next":
+                        # any other method (reset, an inherent helper) must leave cursor <= counter: both back to 0, or untouched
+                        if not ((tc == cu(0) and tn in (cu(0), None)) or (tc is None and tn is None)):
+                            good = False
+                        continue
                     if not (_is_wrap(tc, cfield, pf) and _is_satinc(tn, nfield, pf)):
                         good = False
                 if good:
